@@ -107,6 +107,28 @@ def connect_holes_and_structures(
     return matrix
 
 
+def iterate_until_unchanged(body_fn, init: jax.Array) -> jax.Array:
+    """Applies a function repeatedly to an array until the array does not change anymore.
+
+    Args:
+        body_fn: Function mapping an array to an array of the same shape and dtype.
+        init (jax.Array): Initial array.
+
+    Returns:
+        jax.Array: The first array in the sequence init, body_fn(init), ... that is mapped to itself.
+    """
+
+    def _cond_fn(state):
+        return state[1]
+
+    def _loop_fn(state):
+        new_arr = body_fn(state[0])
+        return new_arr, jnp.any(new_arr != state[0])
+
+    result, _ = jax.lax.while_loop(_cond_fn, _loop_fn, (init, jnp.asarray(True)))
+    return result
+
+
 def compute_air_connection(matrix: jax.Array) -> jax.Array:
     """Computes a mask of air regions connected to the boundaries.
 
@@ -121,7 +143,6 @@ def compute_air_connection(matrix: jax.Array) -> jax.Array:
         jax.Array: Boolean array marking air regions connected to boundaries.
     """
     inv_matrix = jnp.invert(matrix)
-    n = max([matrix.shape[0], matrix.shape[1], matrix.shape[2]])
     n4_kernel = jnp.asarray(
         [
             [0, 1, 0],
@@ -138,7 +159,7 @@ def compute_air_connection(matrix: jax.Array) -> jax.Array:
     connected = connected.at[:, -1, :].set(True)
     connected = connected & inv_matrix
 
-    def _body_fn(_, arr):
+    def _body_fn(arr):
         arr = seperated_3d_dilation(
             arr_3d=arr,
             kernel_xy=n4_kernel,
@@ -148,7 +169,8 @@ def compute_air_connection(matrix: jax.Array) -> jax.Array:
         )
         return arr
 
-    connected = jax.lax.fori_loop(0, n, _body_fn, connected)
+    # flood fill: dilate until nothing changes, the longest path may be much longer than the grid edge
+    connected = iterate_until_unchanged(_body_fn, connected)
 
     return connected
 
@@ -172,7 +194,6 @@ def compute_polymer_connection(
     Returns:
         jax.Array: Boolean array marking connected polymer regions.
     """
-    n = max([matrix.shape[0], matrix.shape[1], matrix.shape[2]])
     padded = False
     if matrix.shape[2] == 1:
         padded = True
@@ -191,7 +212,7 @@ def compute_polymer_connection(
     else:
         connected = connected.at[connected_slice].set(True)
 
-    def _body_fn(_, arr):
+    def _body_fn(arr):
         arr = seperated_3d_dilation(
             arr_3d=arr,
             kernel_xy=n4_kernel,
@@ -201,7 +222,8 @@ def compute_polymer_connection(
         )
         return arr
 
-    connected = jax.lax.fori_loop(0, n, _body_fn, connected)
+    # flood fill: dilate until nothing changes, the longest path may be much longer than the grid edge
+    connected = iterate_until_unchanged(_body_fn, connected)
 
     if padded:
         connected = connected[..., 1:2]
